@@ -63,7 +63,7 @@ func fmtText(s string) string {
 
 func init() {
 	// rvtable <32|64> => <n> then per entry:
-	//   <ext> <idx> <name> <bytes> <mask> <inregs> <outreg> <ld> <st> <imm> <type>
+	//   <ext> <idx> <name> <bytes> <mask> <inregs> <outreg> <ld> <st> <imm> <type> <uimm>
 	register("rvtable", func(t *tokens) string {
 		var v riscv.Variant
 		switch t.next() {
@@ -78,9 +78,10 @@ func init() {
 		var sb strings.Builder
 		fmt.Fprintf(&sb, "%d", len(es))
 		for _, e := range es {
-			fmt.Fprintf(&sb, " %d %d %s %s %s %d %s %d %d %d %d", e.Extension, e.Index,
+			fmt.Fprintf(&sb, " %d %d %s %s %s %d %s %d %d %d %d %s", e.Extension, e.Index,
 				fmtText(e.Name), fmtHex(e.Bytes), fmtHex(e.Mask), e.InputRegCnt,
-				fmtBool(e.HasOutputReg), e.LoadBytes, e.StoreBytes, e.Immediate, e.InstrType)
+				fmtBool(e.HasOutputReg), e.LoadBytes, e.StoreBytes, e.Immediate, e.InstrType,
+				fmtBool(e.Uimm))
 		}
 		return sb.String()
 	})
